@@ -174,7 +174,9 @@ pub fn prepack_a<A: Alloc, LhsT, RhsT, OutT>(
     alloc: A,
     a: Matrix<LhsT>,
 ) -> PackedAMatrix<LhsT> {
-    let depth_block = depth_block_size::<RhsT>(a.cols(), None);
+    // The block size is only zero if the matrix has no columns. Use a non-zero
+    // size in that case so the block count below is well defined (zero).
+    let depth_block = depth_block_size::<RhsT>(a.cols(), None).max(1);
 
     let layout = kernel.packed_a_layout(a, a.rows(), depth_block, None);
     let tail_layout = if !a.cols().is_multiple_of(depth_block) {
@@ -196,7 +198,7 @@ pub fn prepack_a<A: Alloc, LhsT, RhsT, OutT>(
     let uninit_data = data.alloc_in(alloc, total_size, layout.align());
 
     for (col_block, block_data) in
-        range_chunks(0..a.cols(), depth_block).zip(uninit_data.chunks_mut(layout.size()))
+        range_chunks(0..a.cols(), depth_block).zip(uninit_data.chunks_mut(layout.size().max(1)))
     {
         kernel.pack_a_block(block_data, a, 0..a.rows(), col_block, None);
     }
@@ -230,7 +232,9 @@ pub fn prepack_b<A: Alloc, LhsT, RhsT, OutT>(
     alloc: A,
     b: Matrix<RhsT>,
 ) -> PackedBMatrix<RhsT> {
-    let depth_block = depth_block_size::<RhsT>(b.rows(), None);
+    // The block size is only zero if the matrix has no rows. Use a non-zero
+    // size in that case so the block count below is well defined (zero).
+    let depth_block = depth_block_size::<RhsT>(b.rows(), None).max(1);
 
     let layout = kernel.packed_b_layout(depth_block, b.cols(), None);
     let tail_layout = if !b.rows().is_multiple_of(depth_block) {
@@ -251,7 +255,7 @@ pub fn prepack_b<A: Alloc, LhsT, RhsT, OutT>(
     let uninit_data = data.alloc_in(alloc, total_size, layout.align());
 
     for (row_block, block_data) in
-        range_chunks(0..b.rows(), depth_block).zip(uninit_data.chunks_mut(layout.size()))
+        range_chunks(0..b.rows(), depth_block).zip(uninit_data.chunks_mut(layout.size().max(1)))
     {
         kernel.pack_b_block(block_data, b, row_block, 0..b.cols(), None);
     }
